@@ -364,6 +364,79 @@ def run_raising_finalizer(rng, which, sync):
             "action_calls": len(calls)}
 
 
+# ---- faulty upstream / subscriber without error handler (oracle only) ---------------------
+
+def run_faulty_upstream(rng, which, spec=None):
+    """The upstream source may raise out of its subscribe function (after delivering a prefix), hand back a
+    disposable whose dispose() raises, and the subscriber may have no on_error handler (the default one raises).
+    However the subscription stops -- terminal notification, disposal, or an exception escaping subscribe() --
+    the finalizer (finally_action / do_finally action / using's resource disposal) must have run exactly once
+    when everything is over, and never more than once."""
+    import reactivex as rx
+    from reactivex import operators as ops
+    from reactivex.disposable import Disposable
+    from reactivex.operators import _do
+    if spec is None:
+        spec = {"pre": rng.choice([[], [1], [1, "C"], ["E"], [0, None, "C"], [2, "E"]]),
+                "sub_raises": rng.random() < 0.4, "disp_raises": rng.random() < 0.3,
+                "handler": rng.random() < 0.6, "later": rng.choice([None, None, "C", "E", "N"]),
+                "dispose": rng.choice([0, 1, 2])}
+    calls, holder, escaped = [], [], []
+
+    def subscribe(o, s=None):
+        holder.append(o)
+        for ev in spec["pre"]:
+            if ev == "C":
+                o.on_completed()
+            elif ev == "E":
+                o.on_error(UserError(11))
+            else:
+                o.on_next(ev)
+        if spec["sub_raises"]:
+            raise UserError(66)
+
+        def d():
+            if spec["disp_raises"]:
+                raise UserError(67)
+        return Disposable(d)
+    src = rx.create(subscribe)
+    action = lambda: calls.append(1)
+    if which == "finally_action":
+        o = src.pipe(ops.finally_action(action))
+    elif which == "do_finally":
+        o = _do.do_finally(action)(src)
+    else:
+        o = rx.using(lambda: Disposable(action), lambda r: src)
+    d = None
+    try:
+        if spec["handler"]:
+            d = o.subscribe(lambda v: None, lambda e: None, lambda: None)
+        else:
+            d = o.subscribe(lambda v: None)
+    except UserError as e:
+        escaped.append(("subscribe", e.code if hasattr(e, "code") else repr(e)))
+    if spec["later"] and holder:
+        try:
+            if spec["later"] == "C":
+                holder[0].on_completed()
+            elif spec["later"] == "E":
+                holder[0].on_error(UserError(12))
+            else:
+                holder[0].on_next(5)
+        except UserError as e:
+            escaped.append(("later", repr(e)))
+    for _ in range(spec["dispose"]):
+        if d is not None:
+            try:
+                d.dispose()
+            except UserError as e:
+                escaped.append(("dispose", repr(e)))
+    stopped = bool("C" in spec["pre"] or "E" in spec["pre"] or spec["later"] in ("C", "E")
+                   or (spec["dispose"] and d is not None) or d is None or spec["sub_raises"])
+    return {"operator": which, "spec": spec, "finalizer_calls": len(calls), "expected": 1 if stopped else 0,
+            "escaped": [list(map(str, e)) for e in escaped]}
+
+
 # ---- the check ---------------------------------------------------------------------
 
 def run(chk):
@@ -423,6 +496,24 @@ def run(chk):
                     chk.violation(f"C40|{which}|raising action invoked {r['action_calls']} times",
                                   {"raising_finalizer": r, "what": f"a raising {which} action was invoked "
                                    f"{r['action_calls']} times for one subscription"}, size=1)
+    nf, fkinds = 0, {}
+    for which in ("finally_action", "do_finally", "using"):
+        for _ in range(120 if chk.tier == "quick" else 2500):
+            r = run_faulty_upstream(chk.rng, which)
+            chk.cov["evaluations"] += 1
+            nf += 1
+            sp = r["spec"]
+            kind = ("subscribe-raises" if sp["sub_raises"] else "") + ("|dispose-raises" if sp["disp_raises"] else "") \
+                + ("" if sp["handler"] else "|no-error-handler")
+            fkinds[kind or "plain"] = fkinds.get(kind or "plain", 0) + 1
+            if r["finalizer_calls"] != r["expected"]:
+                chk.violation(f"C40|{which}|faulty upstream|{kind}|finalizer ran {r['finalizer_calls']}x",
+                              {"faulty_upstream": r, "what": f"{which}: the finalizer ran {r['finalizer_calls']} times, "
+                               f"expected {r['expected']} (upstream may raise from subscribe / dispose; subscriber "
+                               "may lack an error handler)"},
+                              size=len(sp["pre"]) + sp["dispose"] + (1 if sp["later"] else 0))
+            elif r["expected"] == 1 and r["escaped"]:
+                nontrivial.add("faulty|" + json.dumps(r, sort_keys=True, default=str))
     chk.cov["distinct_nontrivial"] = len(nontrivial)
     chk.cov["rule"] = ("per operator (using, finally_action, do_finally, do_on_dispose, do_action, do, do_after_next, "
                        "do_on_subscribe, do_on_terminate, do_after_terminate): seeded parameters (resource factory: "
@@ -431,8 +522,12 @@ def run(chk):
                        "notifications (0-4 elements, completion/error/none, 15% non-conforming tails) x dispose "
                        "instant (40%, incl. the terminal instant and instant 0); non-trivial = distinct (machine, "
                        "delivered inputs) in which the subscription stopped, a side effect was observed and the "
-                       "oracle held; plus raising finally actions (oracle only)")
-    chk.cov["input_distribution"] = {"per_operator": per_op, "raising_finalizer_runs": nr, **hist}
+                       "oracle held; plus raising finally actions (oracle only); plus faulty upstreams (oracle only): "
+                       "prefix delivered inside subscribe() x subscribe function raising x returned disposable "
+                       "raising x subscriber with/without an error handler x a later notification x 0-2 disposals "
+                       "-- finalizer count must be exactly 1 once the subscription stopped")
+    chk.cov["input_distribution"] = {"per_operator": per_op, "raising_finalizer_runs": nr,
+                                     "faulty_upstream_runs": nf, "faulty_upstream_kinds": fkinds, **hist}
     chk.add_samples([{"case": c[0], "trace": c[1]} for c in cases[:: max(1, len(cases) // 5)]][:5])
     return chk.finish(
         trusted_extra=["multi-source K2 driver harness/k2m.py (boundary log, proxy scheduler, canonical per-instant "
@@ -452,6 +547,14 @@ def replay(chk, path):
     if "raising_finalizer" in d:
         print(json.dumps(d, indent=1))
         return 1
+    if "faulty_upstream" in d:
+        f = d["faulty_upstream"]
+        r = run_faulty_upstream(None, f["operator"], f["spec"])
+        print(json.dumps(r, indent=1))
+        if r["finalizer_calls"] != r["expected"]:
+            print(f"VIOLATION property=C40 replay={path}")
+            return 1
+        return 0
     case = d["case"]
     res = run_case(case)
     v = oracle(case, res)
